@@ -4,7 +4,11 @@
 (b) level M: the real MasterScheduler driven message by message with real-time costs (answers in flight,
     interrupts in every phase): every sleep it arms and every tick time -- hence every interrupt stamp -- is
     compared with Model/Master.v, for which C12_exact / C12_stamp are proved."""
+import json
+
+import slevel
 import sprops
+from common import run_shards
 from props import c07
 
 PID = "C12"
@@ -23,14 +27,83 @@ def m_level(ck, tier, rng):
                        broken="correspondence Model/Master.v vs master.py; theorems C12_exact, C12_stamp of Props.C12"), no_input=True)
 
 
+EXT, EXP = 1, 2
+SMALL = [
+    ({1: dict(order=[(3, "dev"), (4, "dev")], conns=[(3, 1, 4, 1)])}, {3: (2, 300_000_000, 1), 4: (2, 300_000_000, 0)}),
+    ({1: dict(order=[(3, "dev"), (4, 2)], conns=[(3, 1, 4, 1)]),
+      2: dict(order=[(5, "dev"), (6, "dev")], conns=[(EXT, 1, 5, 1), (5, 1, 6, 1), (6, 1, EXP, 1)])},
+     {3: (4, 400_000_000, 1), 5: (4, 300_000_000, 0), 6: (4, 300_000_000, 2)}),
+]
+
+
+def exact_part(ck, tier, rng):
+    """the exact half of C12 on real runs (ticks cost no virtual real time): every master tick has
+    simulation time = initial + speed * real time (code 97) -- ordinary histories at several speeds and
+    initial times, and interrupts raised before a late scheduler has come up (stamped before the first tick)"""
+    cases = []
+    for cfg, devs in SMALL:
+        for d in [c for (c, k) in cfg[1]["order"] if k == "dev"]:
+            for sd in (2, 5):
+                for init in (0, 2_000_000, 7_000_000_000):
+                    cases.append(dict(cfg=cfg, devs=devs, speed=(1, 1), initial=init, stim=[], delays={"sched": sd}, early=(1, d)))
+    for _ in range({"quick": 30, "thorough": 400}[tier]):
+        cfg = slevel.gen_config(rng, depth=rng.choice([0, 0, 1, 2]))
+        devs = slevel.gen_devs(rng, cfg)
+        cases.append(dict(cfg=cfg, devs=devs, speed=rng.choice([(1, 1), (2, 1), (1, 2)]), initial=rng.choice([0, 2_000_000, 5_000_000_000]),
+                          stim=sprops.gen_stim(rng, cfg, devs), delays=None, early=None))
+    runs, terms = [], []
+    for c in cases:
+        r = slevel.run_internal(c["cfg"], c["devs"], c["speed"], c["initial"], c["stim"], sprops.T_END, delays=c["delays"], early=c["early"])
+        runs.append(r)
+        terms.append(slevel.render_sim_case(c["cfg"], c["devs"], c["speed"], c["initial"], c["stim"], sprops.T_END, r,
+                                            pre=[c["early"][1]] if c["early"] else []))
+    bad = run_shards(PID + "_exact", sprops.HEADER, "sim_case", "check_exact", terms, shard_size=12)
+    for c, r in zip(cases, runs):
+        ck.count("exact:" + json.dumps([sprops.describe(c), c["delays"], c["early"]], sort_keys=True), len(r["mticks"]) >= 3)
+    ck.coverage.update(exact_pacing_runs=len(cases), exact_pacing_early_interrupts=sum(1 for r in runs if r.get("early_before_scheduler")),
+                       exact_pacing_disagreements=len(bad))
+    hit = [i for i in sorted(bad) if 97 in bad[i]]
+    if hit:
+        i = hit[0]
+        d = sprops.describe(cases[i])
+        d.update(kind="exact", delays=cases[i]["delays"], early=cases[i]["early"], codes=bad[i], master_ticks=[list(x) for x in runs[i]["mticks"]][:12])
+        ck.report("simulation-time-is-not-initial-plus-speed-times-real-time",
+                  "a master tick's simulation time differs from initial + speed x elapsed real time although ticks cost no real time", d)
+    elif bad and not ck.violations:
+        i = min(bad)
+        d = sprops.describe(cases[i])
+        d.update(kind="exact", delays=cases[i]["delays"], early=cases[i]["early"], codes=bad[i],
+                 broken="correspondence Model/Sim.v vs the schedulers (pacing cases); theorems of Props.C12")
+        ck.report("correspondence-broken", "simulation model and implementation disagree on the pacing cases but every tick is exactly paced", d, no_input=True)
+
+
+def extra_parts(ck, tier, rng):
+    m_level(ck, tier, rng)
+    exact_part(ck, tier, rng)
+
+
 def main(tier, seed):
     return sprops.main_S(PID, tier, seed, {96}, "Props.C12",
                          ["Model/Sim.v", "Model/Master.v", "Oracle/SimCheck.v", "Oracle/SimOracle.v", "Oracle/MasterOracle.v",
                           "Proofs/MasterP.v", "Props/C12.v"],
-                         "pacing", "callbacks", extra=m_level)
+                         "pacing", "callbacks", extra=extra_parts)
 
 
 def replay(rp):
     if rp.get("kind") == "master":
         return c07.replay(rp)
+    if rp.get("kind") == "exact":
+        cfg = {int(k): dict(order=[(c, (k2 if k2 == "dev" else int(k2))) for c, k2 in v["order"]],
+                            conns=[tuple(x) for x in v["conns"]]) for k, v in rp["cfg"].items()}
+        devs = {int(k): tuple(v) for k, v in rp["devs"].items()}
+        delays = {(k if k == "sched" else int(k)): v for k, v in rp["delays"].items()} if rp.get("delays") else None
+        early = tuple(rp["early"]) if rp.get("early") else None
+        stim = [tuple(x) for x in rp["stim"]]
+        r = slevel.run_internal(cfg, devs, tuple(rp["speed"]), rp["initial"], stim, sprops.T_END, delays=delays, early=early)
+        term = slevel.render_sim_case(cfg, devs, tuple(rp["speed"]), rp["initial"], stim, sprops.T_END, r, pre=[early[1]] if early else [])
+        bad = run_shards("replay", sprops.HEADER, "sim_case", "check_exact", [term])
+        print("initial:", rp["initial"], "speed:", rp["speed"], "early interrupt:", early)
+        print("master ticks (simulation time, real time):", r["mticks"][:12])
+        print("codes:", bad.get(0, []))
+        return 1 if bad else 0
     return sprops.replay_S(rp)
